@@ -107,3 +107,17 @@ func devEnum() {
 		fmt.Println(n, k)
 	}
 }
+
+// devC36Templates: runs one instance of every C36 script template alone on both engines and prints the outcome (development aid:
+// all templates except the two deliberately failing ones must succeed).
+func devC36Templates() {
+	base := c36BaseWorld()
+	for t := 0; t < c36Templates; t++ {
+		src := c36ScriptT(NewRng(uint64(t)+1), 1, 0, t)
+		for _, engine := range []string{"interp", "vm"} {
+			n := NewNode(NodeConfig{Name: "solo", Engine: engine, Cache: "warm", EnvReuse: true}, base.Clone())
+			tr := n.Exec(ExecReq{Kind: "script", Source: src, Salt: uint64(t)}, false)
+			fmt.Printf("== template %d [%s]\n%s\n", t, engine, clip(summaryOf(tr), 900))
+		}
+	}
+}
